@@ -13,6 +13,7 @@ Two independent judges per case:
 """
 import json
 import math
+import time
 import warnings
 from fractions import Fraction as F
 
@@ -54,46 +55,66 @@ def frs(x):
 
 
 def build_array(case):
+    """The structured array of a case.  case["layout"] (optional) varies what the statement leaves open:
+    dtype of the time columns (f4 / f8), of pitch (i4 / i8 / i2) and velocity (i4 / i8 / u1 / f4), the
+    ORDER of the fields, and extra fields (voice, staff, track) the functions must ignore."""
     import numpy as np
 
-    dt = [("pitch", "i4")]
+    lay = case.get("layout") or {}
+    tf = lay.get("time", "f4")
+    fields = [("pitch", lay.get("pitch", "i4"))]
     for u in case["units"]:
-        ty = "i4" if u in INT_UNITS else "f4"
-        dt += [("onset_" + u, ty), ("duration_" + u, ty)]
+        ty = "i4" if u in INT_UNITS else tf
+        fields += [("onset_" + u, ty), ("duration_" + u, ty)]
     if case["has_vel"]:
-        dt.append(("velocity", "i4"))
+        fields.append(("velocity", lay.get("vel", "i4")))
     if case["has_chan"]:
-        dt.append(("channel", "i4"))
-    dt.append(("id", "U8"))
-    rows = []
+        fields.append(("channel", "i4"))
+    fields.append(("id", "U8"))
+    if lay.get("extra"):
+        fields += [("voice", "i4"), ("staff", "i4"), ("track", "i4")]
+    cols = {}
     for i, r in enumerate(case["rows"]):
-        t = [r["pitch"]]
+        cols.setdefault("pitch", []).append(r["pitch"])
         for u, (on, du) in zip(case["units"], r["t"]):
             on, du = fr(on), fr(du)
             if u in INT_UNITS:
                 assert on.denominator == 1 and du.denominator == 1
-                t += [int(on), int(du)]
+                cols.setdefault("onset_" + u, []).append(int(on))
+                cols.setdefault("duration_" + u, []).append(int(du))
             else:
-                t += [float(on), float(du)]
-        if case["has_vel"]:
-            t.append(r["vel"])
-        if case["has_chan"]:
-            t.append(r["chan"])
-        t.append("n%d" % i)
-        rows.append(tuple(t))
-    na = np.array(rows, dtype=dt)
-    # the values must survive the f4 column exactly (the model sees what the code sees)
+                cols.setdefault("onset_" + u, []).append(float(on))
+                cols.setdefault("duration_" + u, []).append(float(du))
+        cols.setdefault("velocity", []).append(r["vel"])
+        cols.setdefault("channel", []).append(r["chan"])
+        cols.setdefault("id", []).append("n%d" % i)
+        cols.setdefault("voice", []).append(1 + i % 3)
+        cols.setdefault("staff", []).append(1 + i % 2)
+        cols.setdefault("track", []).append(9 if i % 2 else 0)     # a decoy: 9 in the TRACK field is no drum
+    order = lay.get("order")
+    if order:   # a permutation of the field positions
+        fields = [fields[k] for k in order if k < len(fields)] + [f for k, f in enumerate(fields) if k not in order]
+    na = np.zeros(len(case["rows"]), dtype=fields)
+    for name, _ in fields:
+        na[name] = cols[name]
+    # the values must survive the columns exactly (the model sees what the code sees)
     for i, r in enumerate(case["rows"]):
+        assert int(na["pitch"][i]) == r["pitch"]
         for u, (on, du) in zip(case["units"], r["t"]):
             assert F(float(na["onset_" + u][i])) == fr(on) and F(float(na["duration_" + u][i])) == fr(du), (u, on, du)
     return na
 
 
 def roll_kwargs(case):
+    import numpy as np
+
     o = case["opts"]
     kw = {k: o[k] for k in BOOL_OPTS}
     kw["time_unit"] = o["time_unit"]
-    kw["time_div"] = o["time_div"]
+    td = o["time_div"]
+    if td != "auto":     # the resolution as a Python int or a numpy integer
+        td = {"int": int, "np": np.int64, "np32": np.int32}[o.get("time_div_kind", "int")](td)
+    kw["time_div"] = td
     kw["pitch_margin"] = o["pitch_margin"]
     kw["time_margin"] = o["time_margin"]
     kw["end_time"] = None if o["end_time"] is None else float(fr(o["end_time"]))
@@ -125,7 +146,7 @@ def run_impl_roll(case):
     import numpy as np
     import partitura.utils.music as M
 
-    na = build_array(case)
+    na = build_object(case["object"])[0] if case.get("object") else build_array(case)
     try:
         with warnings.catch_warnings():
             warnings.simplefilter("ignore")
@@ -376,10 +397,12 @@ def c_roll_case(case, got):
 # generators (ctx.rng only)
 
 
-def gen_rows(rng, units, n=None, grid=True, small=False):
+def gen_rows(rng, units, n=None, grid=True, small=False, tf="f4"):
     if n is None:
         x = rng.random()
-        n = 1 if x < 0.05 else rng.randint(2, 6) if x < 0.6 else rng.randint(7, 12)
+        # 6 %: 17-40 rows (numpy's default argsort is not stable above 16 elements; ties in onset then come in
+        # another order than the input)
+        n = 1 if x < 0.05 else rng.randint(2, 6) if x < 0.57 else rng.randint(7, 12) if x < 0.94 else rng.randint(17, 40)
     pool_kind = rng.random()
     if pool_kind < 0.55:
         pool = [rng.randint(21, 108) for _ in range(rng.randint(1, 4))]
@@ -402,10 +425,12 @@ def gen_rows(rng, units, n=None, grid=True, small=False):
                 du = F(0) if rng.random() < 0.15 else F(rng.randint(1, maxd), 16)
             else:
                 import numpy as np
-                on = F(float(np.float32(rng.random() * 4 + shift / 16.0)))
-                du = F(float(np.float32(rng.random() * 1.5)))
+                conv = np.float32 if tf == "f4" else np.float64
+                on = F(float(conv(rng.random() * 4 + shift / 16.0)))
+                du = F(float(conv(rng.random() * 1.5)))
             t.append([frs(on), frs(du)])
-        ch = 9 if chan_mode < 0.08 else rng.choice([0, 0, 1, 9])
+        # channel 9 is the drum channel; its neighbours 8 and 10 and the last channel 15 are ordinary ones
+        ch = 9 if chan_mode < 0.08 else rng.choice([0, 0, 1, 9, 9, 8, 10, 15])
         rows.append({"pitch": rng.choice(pool), "t": t, "vel": rng.randint(1, 127), "chan": ch})
     # weight on collisions: re-strike / overlap an existing note with another velocity
     if n >= 2 and rng.random() < 0.3:
@@ -430,6 +455,8 @@ def gen_opts(rng, case_units, grid=True):
     o["time_unit"] = "auto" if rng.random() < 0.5 else rng.choice(case_units)
     x = rng.random()
     o["time_div"] = "auto" if x < 0.15 else rng.choice([1, 2, 4, 8, 16]) if x < 0.9 else rng.choice([3, 5, 10, 12])
+    if o["time_div"] != "auto" and rng.random() < 0.25:
+        o["time_div_kind"] = rng.choice(["np", "np32"])      # an integer all the same (documented type: int)
     o["pitch_margin"] = rng.choice([-1, -1, 0, 2, 2, 1, 5][: 7 if rng.random() < 0.2 else 5])
     o["time_margin"] = rng.choice([0, 1, 2])
     o["end_time"] = None
@@ -456,12 +483,29 @@ def choose_end_time(rng, case):
     return frs(last + extra + (F(1) if rng.random() < 0.3 else F(0)))
 
 
+def gen_layout(rng, nunits):
+    """None (60 %: the layout partitura's own note arrays have) or a variation of what the statement
+    leaves open: field order, dtypes, extra fields."""
+    if rng.random() < 0.6:
+        return None
+    lay = {"time": rng.choice(["f4", "f8", "f8"]), "pitch": rng.choice(["i4", "i8", "i2"]),
+           "vel": rng.choice(["i4", "i8", "u1", "f4"]), "extra": rng.random() < 0.5}
+    if rng.random() < 0.6:
+        k = list(range(1 + 2 * nunits + 3 + (3 if lay["extra"] else 0)))
+        rng.shuffle(k)
+        lay["order"] = k
+    return lay
+
+
 def gen_roll_case(rng, small=False):
     nunits = rng.choice([1, 1, 2, 2, 3])
     units = rng.sample(UNITS, nunits)
     grid = rng.random() < 0.88
+    lay = gen_layout(rng, len(units))
     case = {"kind": "roll", "units": units, "has_vel": rng.random() < 0.6, "has_chan": rng.random() < 0.35,
-            "rows": gen_rows(rng, units, grid=grid, small=small)}
+            "rows": gen_rows(rng, units, grid=grid, small=small, tf=(lay or {}).get("time", "f4"))}
+    if lay:
+        case["layout"] = lay
     case["opts"] = gen_opts(rng, units, grid)
     if rng.random() < 0.012:
         r = rng.choice(case["rows"])
@@ -514,6 +558,107 @@ def exhaustive_option_cases(rows_case, time_div):
 
 
 # ----------------------------------------------------------------------------
+# score-like and performance-like inputs (the dispatch of ensure_notearray in front of the roll)
+
+STEPS = [("C", 0), ("C", 1), ("D", 0), ("D", 1), ("E", 0), ("F", 0), ("F", 1), ("G", 0), ("G", 1), ("A", 0), ("A", 1), ("B", 0)]
+
+
+def build_object(spec):
+    """(object handed to compute_pianoroll, reference note array obtained WITHOUT ensure_notearray:
+    the object's own note_array() method, note_array_from_part_list for a group / a list of parts)."""
+    import partitura.score as S
+    import partitura.performance as P
+    import partitura.utils.music as M
+
+    ty = spec["type"]
+    with warnings.catch_warnings():
+        warnings.simplefilter("ignore")
+        if ty in ("ppart", "performance"):
+            pps = [P.PerformedPart([dict(midi_pitch=n[0], note_on=float(fr(n[1])), note_off=float(fr(n[2])), velocity=n[3], channel=n[4], track=n[5])
+                                    for n in notes], ppq=spec.get("ppq", 480), mpq=500000) for notes in spec["pparts"]]
+            if ty == "ppart":
+                return pps[0], pps[0].note_array()
+            perf = P.Performance(id="perf", performedparts=pps)
+            return perf, perf.note_array()
+        parts = []
+        for k, ps in enumerate(spec["parts"]):
+            part = S.Part("P%d" % k, quarter_duration=ps["qd"])
+            part.add(S.TimeSignature(ps["ts"][0], ps["ts"][1]), 0)
+            for i, (pitch, a, b) in enumerate(ps["notes"]):
+                step, alter = STEPS[pitch % 12]
+                part.add(S.Note(step=step, octave=pitch // 12 - 1, alter=alter, voice=1 + i % 2, id="p%dn%d" % (k, i)), a, b)
+            S.add_measures(part)
+            parts.append(part)
+        if ty == "part":
+            return parts[0], parts[0].note_array()
+        if ty == "score":
+            sc = S.Score(parts)
+            return sc, sc.note_array()
+        if ty == "partgroup":
+            g = S.PartGroup()
+            g.children = parts
+            return g, M.note_array_from_part_list(parts)
+        if ty == "partlist":
+            return parts, M.note_array_from_part_list(parts)
+    raise ValueError(ty)
+
+
+def case_of_notearray(na):
+    """units / rows / velocity / channel of a structured note array as a case (exact rationals)."""
+    names = list(na.dtype.names)
+    units = [u for u in UNITS if "onset_" + u in names]
+    rows = []
+    for row in na:
+        rows.append({"pitch": int(row["pitch"]),
+                     "t": [[frs(F(float(row["onset_" + u]))), frs(F(float(row["duration_" + u])))] for u in units],
+                     "vel": int(row["velocity"]) if "velocity" in names else 1,
+                     "chan": int(row["channel"]) if "channel" in names else 0})
+    return {"kind": "roll", "units": units, "has_vel": "velocity" in names, "has_chan": "channel" in names, "rows": rows}
+
+
+def gen_object_case(rng):
+    ty = rng.choice(["part", "part", "score", "partgroup", "partlist", "ppart", "ppart", "performance"])
+    pool = [rng.randint(21, 108) for _ in range(3)] + [rng.choice([0, 20, 21, 108, 109, 127])]
+    if ty in ("ppart", "performance"):
+        pps = []
+        for _ in range(1 if ty == "ppart" else rng.randint(1, 2)):
+            notes = []
+            for _ in range(rng.randint(1, 6)):
+                a = F(rng.randint(0, 40), 16)
+                notes.append([rng.choice(pool), frs(a), frs(a + F(rng.randint(1, 24), 16)), rng.randint(1, 127),
+                              rng.choice([0, 0, 1, 9, 9, 10]), rng.choice([0, 1, 9])])
+            pps.append(notes)
+        # 2 * ppq ticks per second: small, so that the tick columns give rolls of a few dozen frames
+        spec = {"type": ty, "pparts": pps, "ppq": rng.choice([2, 4, 8])}
+    else:
+        parts = []
+        for _ in range(1 if ty == "part" else rng.randint(1, 3)):
+            qd = rng.choice([1, 2, 4, 4, 8])
+            notes = []
+            for _ in range(rng.randint(1, 6)):
+                a = rng.randint(0, 6 * qd)
+                notes.append([rng.choice(pool), a, a + rng.randint(1, 3 * qd)])
+            parts.append({"qd": qd, "ts": rng.choice([[4, 4], [4, 4], [3, 4], [2, 2], [6, 8]]), "notes": notes})
+        spec = {"type": ty, "parts": parts}
+    try:
+        ref = build_object(spec)[1]
+    except Exception:
+        return None
+    case = case_of_notearray(ref)
+    if not case["rows"] or not case["units"]:
+        return None
+    case["object"] = spec
+    case["container"] = ty
+    case["opts"] = gen_opts(rng, case["units"])
+    if selected(case)[0] in INT_UNITS and case["opts"]["time_div"] != "auto":
+        case["opts"]["time_div"] = rng.choice([1, 1, 2])      # whole ticks / divisions: keep the number of frames small
+    if ty in ("score", "partgroup", "partlist"):
+        case["opts"]["return_idxs"] = False    # the order of the rows of a merged note array is not the roll's business
+    case["opts"]["end_time"] = choose_end_time(rng, case)
+    return case
+
+
+# ----------------------------------------------------------------------------
 # stream 1: compute_pianoroll
 
 
@@ -550,7 +695,32 @@ def classify_roll(ctx, case, got):
             ctx.count("opt:" + k)
     ctx.count("opt:pitch_margin=%d" % o["pitch_margin"])
     ctx.count("opt:time_margin=%d" % o["time_margin"])
+    ctx.count("opt:time_div=%s" % (o["time_div"] if o["time_div"] in ("auto", 1) else "n"))
+    if o.get("time_div_kind"):
+        ctx.count("opt:time_div_as_" + o["time_div_kind"])
     ctx.count("unit:" + u)
+    if o["time_unit"] != "auto":
+        ctx.count("unit:explicit")
+        if u != infer_unit(case["units"]):
+            ctx.count("unit:explicit_other_than_inferred")
+    elif len(case["units"]) > 1:
+        ctx.count("unit:inferred_among_several")
+    ctx.count("arr:velocity_field" if case["has_vel"] else "arr:no_velocity_field")
+    if case["has_chan"]:
+        ctx.count("arr:channel_field")
+        if any(r["chan"] in (8, 10, 15) for r in case["rows"]):
+            ctx.count("arr:channels_next_to_9")
+    if len(case["rows"]) > 16:
+        ctx.count("arr:more_than_16_rows")
+    lay = case.get("layout")
+    if lay:
+        ctx.count("arr:layout_varied")
+        if lay.get("order"):
+            ctx.count("arr:fields_reordered")
+        if lay.get("time") == "f8":
+            ctx.count("arr:f8_time_columns")
+    if case.get("container"):
+        ctx.count("obj:" + case["container"])
     if got["status"] == "ok" and (set(feats) & {"unsorted_rows", "collision", "half_frame_tie", "zero_length"}):
         ctx.nontrivial(json.dumps(case, sort_keys=True))
 
@@ -571,17 +741,22 @@ def shrink_roll(case, pred):
 WITH_COQ = True   # False when Props/C13.v did not build: the direct oracles still run
 
 
-def coq_failing_or_empty(ctx, name, terms, checker, shard):
+def coq_failing_or_empty(ctx, name, terms, checker, shard, defs=""):
     """ctx.coq_failing, except that an empty case list (every case already failed the direct oracle)
     is not handed to Coq (an untyped empty list literal does not elaborate)."""
     if not terms or not WITH_COQ:
         return None
-    return ctx.coq_failing(name, "From PV Require Import Model.C13.", "", terms, checker, shard=shard)
+    t0 = time.time()
+    try:
+        return ctx.coq_failing(name, "From PV Require Import Model.C13 Model.C13_Api.", defs, terms, checker, shard=shard)
+    finally:
+        ctx.log("coq %s: %d cases, %.1fs" % (name, len(terms), time.time() - t0))
 
 
-def run_roll_stream(ctx, cases, name, with_coq=True):
+def run_roll_stream(ctx, cases, name, with_coq=True, checker="check_pianoroll"):
     terms, kept = [], []
     nviol = 0
+    t0 = time.time()
     for case in cases:
         if not float_safe(case):
             ctx.count("roll:near_tie_skipped")
@@ -593,7 +768,7 @@ def run_roll_stream(ctx, cases, name, with_coq=True):
         if why:
             nviol += 1
             if nviol <= 5:
-                small = shrink_roll(case, judge_roll)
+                small = case if case.get("object") else shrink_roll(case, judge_roll)
                 ctx.violation("compute_pianoroll: " + (judge_roll(small) or why), {"case": small, "got": run_impl_roll(small)})
             continue
         if got["status"] == "crash":
@@ -606,14 +781,16 @@ def run_roll_stream(ctx, cases, name, with_coq=True):
         ctx.sample({"case": case, "implementation": got}, limit=3)
         terms.append(c_roll_case(case, got))
         kept.append((case, got))
+    ctx.log("stream %s: %d cases run and judged, %.1fs" % (name, len(cases), time.time() - t0))
     if not with_coq:
         return
-    failing = coq_failing_or_empty(ctx, name, terms, "check_pianoroll", 250)
+    failing = coq_failing_or_empty(ctx, name, terms, checker, 300)
     if failing is None:
         ctx.obligation("correspondence: compute_pianoroll [%s]: no case left to compare (all failed the direct oracle)" % name, False, "")
         return
-    ctx.obligation("correspondence: Model.C13.compute_pianoroll = implementation (shape, dense array cell by cell, index rows) on %d cases [%s]"
-                   % (len(terms), name), not failing, failing[:5])
+    ctx.obligation("correspondence: Model.C13.compute_pianoroll = implementation (shape, dense array cell by cell%s, index rows) on %d cases [%s]"
+                   % (", the stored cells assembled as the sparse constructor does (Model.C13_Api.sparse_sum) and at distinct positions"
+                      if checker == "check_pianoroll_asm" else "", len(terms), name), not failing, failing[:5])
     for i in failing[:5]:
         case, got = kept[i]
         ctx.violation("model and implementation disagree on compute_pianoroll (the implementation no longer computes what the proved model computes)",
@@ -832,14 +1009,14 @@ def gen_decode_case(rng):
             c += ln  # the next run may touch this one (same or different value)
     return {"kind": "decode", "rows": rows, "cols": cols, "cells": sorted([r, c, v] for (r, c), v in nz.items()),
             "time_div": rng.choice([1, 2, 4, 8, 8, 16, 3, 10]), "time_unit": rng.choice(["sec", "beat", "quarter", "div"]),
-            "container": rng.choice(["dense", "dense", "csc", "csr"])}
+            "container": rng.choice(["dense", "dense", "csc", "csr"]), "dtype": rng.choice(["int64", "int64", "int32", "int16", "int8"])}
 
 
 def build_roll(case):
     import numpy as np
     from scipy.sparse import csc_matrix, csr_matrix
 
-    d = np.zeros((case["rows"], case["cols"]), dtype=int)
+    d = np.zeros((case["rows"], case["cols"]), dtype=case.get("dtype", "int64"))
     for r, c, v in case["cells"]:
         d[r, c] = v
     return {"dense": lambda x: x, "csc": csc_matrix, "csr": csr_matrix}[case["container"]](d)
@@ -926,16 +1103,43 @@ def c_decode_case(case, got):
 
 
 def gen_roundtrip_case(rng):
-    """grid-aligned, non-touching notes with velocities, rows in random order (the last clause of the
-    statement; hypotheses of theorem roundtrip_recovers_notes).  Weights: half the cases re-strike a
-    pitch already used (the gap between two notes of one pitch is often exactly ONE empty frame, the
-    least that is non-touching); 40 % piano range (notes inside 21..108); 35 % start late or before time 0
-    (with and without remove_silence: onsets come back counted from the roll's time origin)."""
-    td = rng.choice([1, 2, 4, 8, 16])
+    """grid-aligned, non-touching notes, rows in random order (the last clause of the statement;
+    hypotheses of theorems roundtrip_recovers_notes / roundtrip_with_time_margin /
+    roundtrip_through_interface).  Weights: half the cases re-strike a pitch already used (the gap
+    between two notes of one pitch is often exactly ONE empty frame, the least that is non-touching); 40 %
+    piano range (notes inside 21..108); 35 % start late or before time 0 (with and without
+    remove_silence: onsets come back counted from the roll's time origin); 45 % a time margin of 1 or 2
+    units (onsets come back shifted by it); 25 % no velocity field (velocity 1 comes back); 30 % a channel
+    field with drum rows laid OVER the other notes (removed before rasterising, so they neither touch nor
+    come back); 40 % further unit columns holding other values (field selection / unit inference); the
+    resolution given or 'auto'."""
     piano = rng.random() < 0.4
+    units = rng.sample(UNITS, rng.choice([1, 1, 1, 2, 3]))
+    explicit = rng.random() < 0.5
+    unit = rng.choice(units) if explicit else infer_unit(units)
+    k = units.index(unit)
+    if unit in INT_UNITS:
+        td = rng.choice(["auto", 1, 1, 2])
+        tdv = 1      # values of the integer columns are whole: they lie on every grid
+    else:
+        td = rng.choice(["auto", 1, 2, 4, 8, 16])
+        tdv = 8 if td == "auto" else td
     n = rng.randint(1, 10)
-    shift = rng.choice([0, 0, 0, 0, 3, 16, -1, -8]) if td > 1 else rng.choice([0, 0, 2, -3])
+    shift = rng.choice([0, 0, 0, 0, 3, 16, -1, -8]) if tdv > 1 else rng.choice([0, 0, 2, -3])
+    has_chan = rng.random() < 0.3
     rows, busy = [], {}
+
+    def other_columns(row_t):
+        t = []
+        for u in units:
+            if u == unit:
+                t.append(row_t)
+            elif u in INT_UNITS:
+                t.append([frs(F(rng.randint(0, 30))), frs(F(rng.randint(0, 5)))])
+            else:
+                t.append([frs(F(rng.randint(0, 60), 16)), frs(F(rng.randint(0, 20), 16))])
+        return t
+
     for _ in range(n * 4):
         if len(rows) >= n:
             break
@@ -943,46 +1147,60 @@ def gen_roundtrip_case(rng):
         a = rng.randint(0, 40)
         if rng.random() < 0.5 and rows:
             p = rng.choice(rows)["pitch"]
-            if rng.random() < 0.6:          # exactly one empty frame after / before a note of this pitch
+            if rng.random() < 0.6:          # exactly one empty grid step after / before a note of this pitch
                 x, y = rng.choice(busy[p])
                 a = y + 1 if rng.random() < 0.7 else max(0, x - 1 - rng.randint(1, 3))
         b = a + rng.randint(1, 8)
         if any(not (b < x or y < a) for x, y in busy.get(p, [])):   # would overlap or touch a note of this pitch
             continue
         busy.setdefault(p, []).append((a, b))
-        rows.append({"pitch": p, "t": [[frs(F(a + shift, td)), frs(F(b - a, td))]], "vel": rng.randint(1, 127), "chan": 0})
+        rows.append({"pitch": p, "t": other_columns([frs(F(a + shift, tdv)), frs(F(b - a, tdv))]), "vel": rng.randint(1, 127),
+                     "chan": rng.choice([0, 1, 8, 10]) if has_chan else 0})
+    if has_chan and rows:
+        for _ in range(rng.randint(1, 3)):      # drum rows over (and touching) the notes: removed, never shown
+            r0 = rng.choice(rows)
+            a0 = fr(r0["t"][k][0])
+            rows.append({"pitch": r0["pitch"] if rng.random() < 0.7 else rng.randint(21, 108),
+                         "t": other_columns([frs(a0 + F(rng.randint(-2, 2), tdv)), frs(F(rng.randint(1, 6), tdv))]),
+                         "vel": rng.randint(1, 127), "chan": 9})
     rng.shuffle(rows)
-    unit = rng.choice(["sec", "beat", "quarter"])
-    return {"kind": "roundtrip", "units": [unit], "has_vel": True, "has_chan": False, "rows": rows,
-            "opts": dict(time_unit=rng.choice(["auto", unit]), time_div=td, onset_only=False, note_separation=False, pitch_margin=-1,
-                         time_margin=0, return_idxs=False, piano_range=piano, remove_drums=True, remove_silence=rng.random() < 0.5,
-                         end_time=None, binary=False)}
+    case = {"kind": "roundtrip", "units": units, "has_vel": rng.random() < 0.75, "has_chan": has_chan, "rows": rows,
+            "opts": dict(time_unit=unit if explicit else "auto", time_div=td, onset_only=False, note_separation=False, pitch_margin=-1,
+                         time_margin=rng.choice([0, 0, 0, 1, 1, 2]), return_idxs=False, piano_range=piano, remove_drums=True,
+                         remove_silence=rng.random() < 0.5, end_time=None, binary=False)}
+    lay = gen_layout(rng, len(units))
+    if lay:
+        case["layout"] = lay
+    return case
 
 
 def run_impl_roundtrip(case):
     import partitura.utils.music as M
 
     na = build_array(case)
+    u, td, _ = selected(case)
     try:
         with warnings.catch_warnings():
             warnings.simplefilter("ignore")
             pr = M.compute_pianoroll(na, **roll_kwargs(case))
-            back = M.pianoroll_to_notearray(pr, time_div=case["opts"]["time_div"], time_unit=case["units"][0])
+            back = M.pianoroll_to_notearray(pr, time_div=td, time_unit=u)
     except Exception as e:
         return {"status": "err", "exc": type(e).__name__, "msg": str(e)[:200]}
-    return read_notearray(back, case["units"][0], case["opts"]["time_div"])
+    return read_notearray(back, u, td)
 
 
 def judge_roundtrip(case, got=None):
     got = got or run_impl_roundtrip(case)
     if got["status"] != "ok":
         return "round trip of grid-aligned non-touching notes failed: %s %s" % (got.get("exc", ""), got["msg"])
-    ons = [fr(r["t"][0][0]) for r in case["rows"]]
+    u, td, notes = selected(case)      # the notes the statement shows: unit chosen, drum rows dropped, velocity 1 without the field
+    ons = [n[1] for n in notes]
     origin = min(ons) if case["opts"]["remove_silence"] else min(F(0), min(ons))
+    origin -= case["opts"]["time_margin"]      # the leading margin comes before the time origin
     g = sorted(got["notes"], key=note_key)
-    want = sorted(([r["pitch"], frs(fr(r["t"][0][0]) - origin), frs(fr(r["t"][0][1])), r["vel"]] for r in case["rows"]), key=note_key)
+    want = sorted(([p, frs(on - origin), frs(du), v] for p, on, du, v in notes), key=note_key)
     if g != want:
-        return ("roll -> note array does not recover the notes (pitch, onset counted from the roll's time origin %s, duration, "
+        return ("roll -> note array does not recover the notes (pitch, onset counted from the first frame of the roll = time %s, duration, "
                 "velocity): got %s, expected %s" % (origin, g[:5], want[:5]))
     return None
 
@@ -1023,35 +1241,51 @@ def run_decode_stream(ctx, n_random, n_round):
     terms, kept = [], []
     for _ in range(n_round):
         case = gen_roundtrip_case(ctx.rng)
-        if not case["rows"]:
+        if not case["rows"] or not selected(case)[2]:
             continue
         ctx.evaluations += 1
         ctx.count("roundtrip:%s" % ("piano_range" if case["opts"]["piano_range"] else "full"))
         if case["opts"]["remove_silence"]:
             ctx.count("roundtrip:remove_silence")
-        ps = [r["pitch"] for r in case["rows"]]
+        ps = [n[0] for n in selected(case)[2]]
         if len(set(ps)) < len(ps):
             ctx.count("roundtrip:pitch_struck_more_than_once")
+        if case["opts"]["time_margin"]:
+            ctx.count("roundtrip:time_margin")
+        if not case["has_vel"]:
+            ctx.count("roundtrip:no_velocity_field")
+        if case["has_chan"]:
+            ctx.count("roundtrip:drum_rows_over_the_notes")
+        if len(case["units"]) > 1:
+            ctx.count("roundtrip:several_unit_columns")
+        if case["opts"]["time_div"] == "auto":
+            ctx.count("roundtrip:time_div_auto")
         got = run_impl_roundtrip(case)
         why = judge_roundtrip(case, got)
         if why:
             nviol += 1
             if nviol <= 3:
-                small = shrink_roll(case, lambda c: bool(c["rows"]) and judge_roundtrip(c))
+                small = shrink_roll(case, lambda c: bool(c["rows"]) and bool(selected(c)[2]) and judge_roundtrip(c))
                 ctx.violation(judge_roundtrip(small) or why, {"case": small, "got": run_impl_roundtrip(small)})
             continue
         if len(case["rows"]) > 1:
             ctx.nontrivial(json.dumps(case, sort_keys=True))
         ob = "(Some %s)" % clist([ctuple([cz(p), cq(fr(a)), cq(fr(d)), cz(v)]) for p, a, d, v in got["notes"]])
-        terms.append("((%s, %s, %s, %s) : copts * narr * Z * option (list (Z * Q * Q * Z)))" % (c_copts(case), c_narr(case), cz(case["opts"]["time_div"]), ob))
+        terms.append("((%s, %s, %s, %s) : copts * narr * Z * option (list (Z * Q * Q * Z)))" % (c_copts(case), c_narr(case), cz(selected(case)[1]), ob))
         kept.append((case, got))
     if kept:
         ctx.sample({"case": kept[0][0], "implementation": kept[0][1]}, limit=6)
-    failing = coq_failing_or_empty(ctx, "roundtrip", terms, "check_roundtrip", 150) or []
+    # both decoders of the model: the row-wise one (check_roundtrip) and, through Model.C13_Api.roundtrip (resolution resolved as
+    # compute_pianoroll does), the column scan of the code (check_roundtrip_api)
+    failing = coq_failing_or_empty(ctx, "roundtrip", terms, "pv_rt", 200,
+                                   defs="Definition pv_rt (x : copts * narr * Z * option (list (Z * Q * Q * Z))) : bool :=\n"
+                                        "  let '(c, a, td, ob) := x in check_roundtrip x && check_roundtrip_api (c, a, ob)\n"
+                                        "  && match resolved_div c a with Some d => d =? td | None => true end.\n") or []
     if not WITH_COQ:
         return
-    ctx.obligation("correspondence: Model.C13 decoder applied to Model.C13 roll = pianoroll_to_notearray(compute_pianoroll(.)) up to order "
-                   "on %d grid-aligned non-touching arrays (hypotheses of roundtrip_recovers_notes)" % len(terms), not failing, failing[:5])
+    ctx.obligation("correspondence: Model.C13 decoders (row-wise and column scan) applied to Model.C13 roll = pianoroll_to_notearray(compute_pianoroll(.)) "
+                   "up to order on %d grid-aligned non-touching arrays (hypotheses of roundtrip_through_interface: time margins, drum rows, "
+                   "several unit columns, no velocity field, resolution 'auto')" % len(terms), not failing, failing[:5])
     for i in failing[:5]:
         ctx.violation("model and implementation disagree on the round trip roll -> note array", {"case": kept[i][0], "got": kept[i][1]})
 
@@ -1073,10 +1307,18 @@ def run(ctx):
                 "grid-aligned non-touching round trips (half of them re-strike a pitch, mostly with exactly one empty frame between; with and "
                 "without remove_silence, early/late/negative start).  Non-trivial = accepted case with rows out of onset order, a collision, "
                 "a half-frame tie or a zero-length note (roll); two notes sharing a pitch class (pc); more than one non-zero cell (decode); "
-                "more than one note (round trip).  Distinct by the canonical JSON of the case.")
+                "more than one note (round trip).  Distinct by the canonical JSON of the case.  Second hardening round: channels 8/10/15 "
+                "next to the drum channel 9; 6 % arrays of 17-40 rows (unstable argsort, onset ties); 40 % varied layout (field order "
+                "shuffled, f8 time columns with off-grid 53-bit values, i8/i2 pitch, i8/u1/f4 velocity, extra fields voice/staff/track); "
+                "time_div as numpy integer; Part / Score / PartGroup / list of Parts / PerformedPart / Performance OBJECTS handed to "
+                "compute_pianoroll and judged against the object's own note_array(); round trips with time margins, drum rows laid over the "
+                "notes, several unit columns, no velocity field, resolution 'auto'.")
     ctx.trusted = ["Coq 8.16.1 kernel incl. vm_compute",
                    "harness/props/c13.py: array builder, run-length coding of toarray(), Coq term printers",
-                   "Model.C13 boolean checkers check_pianoroll / check_pc / check_decode / check_roundtrip (dense comparison by runs; note lists up to order)",
+                   "Model.C13 / Model.C13_Api boolean checkers check_pianoroll / check_pianoroll_asm / check_pc / check_decode / check_roundtrip / "
+                   "check_roundtrip_api (dense comparison by runs; note lists up to order)",
+                   "object stream: the reference note array of a Part / Score / PerformedPart / Performance is the object's own note_array() "
+                   "(note_array_from_part_list for a group or a list of parts)",
                    "numpy/scipy toarray() and float32/float64 representation of dyadic rationals"]
     ctx.assumptions = ["time values are fed to the model as the exact rationals the float columns hold; cases where a float product is inexact and "
                        "the exact value is within 2^-30 of a rounding/comparison boundary are counted (near_tie_skipped) and not compared",
@@ -1087,7 +1329,7 @@ def run(ctx):
                        "velocity); not compared: sparse format, dtype, exception class, field order, ids, row order of the decoded array",
                        "pitches and velocities are Python/numpy integers, velocities 1..127 (i4 overflow and velocity 0 out of scope)"]
     global WITH_COQ
-    ok, why = ctx.coq_props(expect_min=35)
+    ok, why = ctx.coq_props(expect_min=50)
     WITH_COQ = bool(ok)
     quick = ctx.tier == "quick"
     rng = ctx.rng
@@ -1099,9 +1341,16 @@ def run(ctx):
     run_roll_stream(ctx, grid_cases, "grid", with_coq=ok)
     n = 1200 if quick else 20000
     cases = [gen_roll_case(rng) for _ in range(n)]
-    run_roll_stream(ctx, cases, "roll", with_coq=ok)
+    run_roll_stream(ctx, cases, "roll", with_coq=ok, checker="check_pianoroll_asm")
+    # score-like and performance-like objects in front of the same function
+    ocases = [c for c in (gen_object_case(rng) for _ in range(120 if quick else 1500)) if c]
+    run_roll_stream(ctx, ocases, "objects", with_coq=ok)
+    t0 = time.time()
     run_pc_stream(ctx, 250 if quick else 3000)
-    run_decode_stream(ctx, 400 if quick else 6000, 250 if quick else 3000)
+    ctx.log("pitch-class stream %.1fs" % (time.time() - t0))
+    t0 = time.time()
+    run_decode_stream(ctx, 400 if quick else 6000, 300 if quick else 3600)
+    ctx.log("decode + round-trip streams %.1fs" % (time.time() - t0))
     if not ok and not ctx.violations:
         ctx.violation("proof obligations of Props/C13.v no longer check: " + why, {"theorem_or_build": why}, no_input=True)
     ctx.extra["exhaustive"] = False
